@@ -13,15 +13,32 @@ def run(tier):
     run_contracts(pr, getters + [VALUE_PARSE_DATETIME], tier)
     # datetime +/- operators: the '+' and '-' cases of evaluate_expression (C03 step obligations cover the datetime arms)
     run_contracts_sel(pr, [EVALUATE_EXPRESSION], tier, 'C16', extra=('C03',))
-    if tier == 'thorough':
+    # bounded stand-in for datetimeNew in both tiers (never counted as proved): a native sweep against calendar arithmetic
+    import os
+    from pyvc.replay import run_witness
+    here = os.path.dirname(os.path.dirname(os.path.abspath(__file__)))
+    with open(os.path.join(here, 'native', 'witness', 'datetime_new_witness.py'), encoding='utf-8') as fh:
+        res = run_witness(fh.read(), timeout=300)
+    pr.bounded.append(f'library._datetime_new: bounded native sweep, {res.get("checked")} argument tuples in both number spellings (months '
+                      '-30..40, days -800..800 around month/leap-year edges, carry chains of hour/minute/second/millisecond) against '
+                      'calendar arithmetic written from the property statement')
+    if res.get('violates'):
+        pr.failures.append({'obligation': 'C16.bounded.datetimeNew-equals-calendar-arithmetic', 'function': 'library._datetime_new', 'path': '',
+                            'inputs': res['counterexamples'][0], 'replay': {'reproduced': True, 'observed': res['counterexamples']},
+                            'solver': {'backend': 'native-bounded', 'verdict': 'counterexample', 'output': ''}})
+    elif 'error' in res:
+        pr.errors.append('datetimeNew witness failed to run: ' + str(res['error'])[-300:])
+    if os.environ.get('PYVC_EXPERIMENTAL_CASES'):
         run_contracts(pr, [DATETIME_NEW], tier)
     else:
-        pr.not_proved.append('library._datetime_new: the roll-over proof (carry chain + two inductive day loops against the abstract '
-                             'calendar DAYNUM/DIM) explores several thousand paths and runs in the thorough tier only')
+        pr.not_proved.append('library._datetime_new: NOT proved — the roll-over proof (carry chain + two inductive day loops against the '
+                             'abstract calendar DAYNUM/DIM, contracts in contracts/lib_datetime.py) explores several thousand paths (7 '
+                             'arguments x int/float spellings x 5 optional carries) and did not finish within 45 minutes and 10 GB; it is '
+                             'outside both registered tiers (PYVC_EXPERIMENTAL_CASES=1 runs it) and the bounded native sweep stands in')
     pr.explanation = ('Proved: the component getters return the fields of the normalised instant; value_parse_datetime returns null '
                       'or a naive datetime and never raises (after the fix); datetime + number and datetime - datetime follow the '
-                      'millisecond arithmetic of the statement incl. out-of-range results yielding null. Thorough tier: datetimeNew '
-                      'against calendar arithmetic. Assumed: ISO text round trip and time-zone behaviour (astimezone/isoformat).')
+                      'millisecond arithmetic of the statement incl. out-of-range results yielding null. datetimeNew: bounded native '
+                      'sweep against calendar arithmetic (its symbolic proof is written but does not finish: not proved). Assumed: ISO text round trip and time-zone behaviour (astimezone/isoformat).')
     pr.assumptions += RUNTIME_ASSUMPTIONS + [
         'the civil calendar is abstract: DATE_* field functions, DIM(y, m) in 28..31 and DAYNUM with DAYNUM(next month) = DAYNUM + DIM (assumed contract of datetime/calendar.monthrange)',
         'astimezone() reads naive values as local time; aware.replace(tzinfo=None) is the wall clock in the value\'s own zone; U2L(x) = x + LOCOFF(x) with an uninterpreted process-zone offset: "whatever the zone is" is covered in the sense that nothing about LOCOFF is assumed, but the ISO round trip itself (isoformat/fromisoformat inverse) is an assumed contract',
